@@ -24,7 +24,9 @@ CONSTANTS Owners,    \* client owner ids
           Lease,     \* lease in ticks (expired iff seen + Lease < now)
           SessIds,   \* session tokens
           Ctxs,      \* COMPOUND execution contexts
-          Deferred   \* TRUE: leaf closes happen in separate steps
+          Deferred,  \* TRUE: leaf closes happen in separate steps
+          InitFH     \* current file handle at the start of a COMPOUND: NoFH (-1)
+                     \* in reality; a file in design checks to save a PUTFH step
 
 Bits    == {"R", "W"}
 Files   == 1 .. MaxFile
@@ -329,7 +331,7 @@ SeqStart(x, sid, slot, sq, cache, shape) ==
                 !.sess = [E.sess EXCEPT ![sid].slots[slot] = [sl EXCEPT !.busy = TRUE, !.shape = shape, !.c = MisorderedCache]],
                 !.inc = [E.inc EXCEPT ![k].hold = @ + 1]])
           /\ cx' = [cx EXCEPT ![x] = [IdleCtx EXCEPT !.kind = "run", !.i = k, !.sid = sid, !.slot = slot,
-                                                     !.sq = sq, !.cache = cache, !.shape = shape,
+                                                     !.sq = sq, !.cache = cache, !.shape = shape, !.fh = InitFH,
                                                      !.acc = <<[op |-> "SEQUENCE", st |-> "OK"]>>]]
           /\ reply' = [op |-> "SEQUENCE", st |-> "OK", kind |-> "new", c |-> MisorderedCache]
           /\ execd' = execd \cup {<<sid, slot, sq>>}
@@ -890,7 +892,6 @@ SidCands(i) ==
     \cup {[k |-> "reg", o |-> r.o, q |-> r.q - 1] : r \in {r \in StateRecs(i) : r.q > 1}}
     \cup {[k |-> "reg", o |-> r.o, q |-> r.q + 1] : r \in StateRecs(i)}
     \cup {[k |-> "reg", o |-> r.o, q |-> r.q] : r \in UNION {StateRecs(j) : j \in IncKeys \ {i}}}
-    \cup {[k |-> "cur", o |-> 0, q |-> 0]}
 IOSids(i) == SidCands(i) \cup {[k |-> "anon", o |-> 0, q |-> 0]}
 NoSid == [k |-> "none", o |-> 0, q |-> 0]
 
@@ -898,16 +899,22 @@ Ranges == {r \in (0 .. N) \X (0 .. N) : r[1] < r[2]}
 
 CanStep(x) == Running(x) /\ Len(cx[x].acc) < MaxAcc
 
-ClientNext ==
+\* In the two-client families a context belongs to one client owner
+\* (Ctxs = Owners); this removes symmetric copies of the same behaviour.
+CtxFor(x, s) == (Ctxs = Owners) => x = sess[s].i[1]
+
+Register ==
   \/ \E own \in Owners : \E ver \in Vers : ExchangeID(own, ver, nextId.cid)
   \/ \E k \in IncKeys : inc[k].live /\ FreeSids # {} /\
         \E d \in {0, 1, 2} : CreateSession(inc[k].cid, inc[k].cs + d, NewSid)
+Destroy ==
   \/ \E s \in SessIds : sess[s].i # NoKey /\ DestroySession(s)
   \/ \E k \in IncKeys : inc[k].live /\ DestroyClientID(inc[k].cid)
-  \/ \E d \in {1, Lease + 1} : clock + d <= MaxClock /\ ClockAdvance(d)
-  \/ \E f \in Files : \E b \in Bits : DoClose(f, b)
+Time ==
+  \E d \in {1, Lease + 1} : clock + d <= MaxClock /\ ClockAdvance(d)
+Closes == \E f \in Files : \E b \in Bits : DoClose(f, b)
 
-FileOps(x) ==
+OpenOps(x) ==
   \/ PutRootFH(x)
   \/ \E f \in Files : PutFH(x, f)
   \/ \E oo \in OOs : \E sh \in 1 .. 3 : \E n \in Names :
@@ -915,7 +922,6 @@ FileOps(x) ==
   \/ \E oo \in OOs : \E sh \in 1 .. 3 : \E cl \in {"FH", "PREVIOUS"} : Open(x, oo, sh, 0, "NOCREATE", cl, "", nextId.other)
   \/ \E s \in SidCands(cx[x].i) : \E sh \in 1 .. 3 : OpenDowngrade(x, s, sh, 0)
   \/ \E s \in SidCands(cx[x].i) : Close(x, s)
-  \/ \E n \in Names : Remove(x, n)
 
 LockOps(x) ==
   \/ \E s \in SidCands(cx[x].i) : \E lo \in LOs : \E lt \in {"R", "W"} : \E r \in Ranges :
@@ -930,39 +936,67 @@ IOOps(x) ==
   \/ \E s \in IOSids(cx[x].i) : \E kind \in {"READ", "WRITE"} : IOStart(x, kind, s)
   \/ \E kind \in {"READ", "WRITE"} : IOEnd(x, kind)
 
-SeqNext(shapes) ==
-  \/ \E x \in Ctxs : \E s \in SessIds : sess[s].i # NoKey /\ \E t \in Slots :
-       \E d \in {0, 1, 2} : \E sh \in shapes : \E ca \in BOOLEAN :
+SeqNext(shapes, ds, caches) ==
+  \/ \E x \in Ctxs : \E s \in SessIds : sess[s].i # NoKey /\ CtxFor(x, s) /\ \E t \in Slots :
+       \E d \in ds : \E sh \in shapes : \E ca \in caches :
           SeqStart(x, s, t, sess[s].slots[t].q + d, ca, sh)
   \/ \E x \in Ctxs : SeqEnd(x, "")
   \/ \E x \in Ctxs : DupReturn(x)
 
-NextC18 ==
-  \/ ClientNext
-  \/ SeqNext({<<>>})
-  \/ \E x \in Ctxs : CanStep(x) /\ (FileOps(x) \/ IOOps(x))
-  \/ \E x \in Ctxs : cx[x].kind = "run" /\ IOOps(x)
+\* C18a: one client, two requests at a time: opens, downgrades, closes, lock
+\* state, I/O in flight, unlinking, deferred leaf closes.
+NextC18a ==
+  \/ Register \/ Closes
+  \/ SeqNext({<<>>}, {1}, {TRUE})
+  \/ \E x \in Ctxs : CanStep(x) /\ x = 1 /\
+        \/ OpenOps(x)
+        \/ \E s \in SidCands(cx[x].i) : \E lo \in LOs : Lock(x, "W", "range", 0, 1, TRUE, s, lo, NoSid, nextId.other)
+        \/ \E s \in SidCands(cx[x].i) : LockU(x, s, "range", 0, 1)
+        \/ \E s \in SidCands(cx[x].i) : FreeStateID(x, s)
+        \/ \E n \in Names : Remove(x, n)
+  \/ \E x \in Ctxs : x # 1 /\ cx[x].kind = "run" /\ Len(cx[x].acc) <= MaxAcc /\ IOOps(x)
 
-NextC20 ==
-  \/ ClientNext
-  \/ SeqNext({<<>>})
-  \/ \E x \in Ctxs : CanStep(x) /\ (LockOps(x) \/ \E f \in Files : PutFH(x, f))
+\* C18b: two clients sharing a file: registration, re-registration, destroy,
+\* lease expiry.
+NextC18b ==
+  \/ Register \/ Destroy \/ Time
+  \/ SeqNext({<<>>}, {1}, {TRUE})
   \/ \E x \in Ctxs : CanStep(x) /\
-        \/ \E oo \in OOs : Open(x, oo, 3, 0, "NOCREATE", "FH", "", nextId.other)
+        \/ \E f \in Files : PutFH(x, f)
+        \/ \E oo \in OOs : \E sh \in 1 .. 3 : Open(x, oo, sh, 0, "NOCREATE", "FH", "", nextId.other)
         \/ \E s \in SidCands(cx[x].i) : Close(x, s)
+        \/ \E s \in SidCands(cx[x].i) : \E lo \in LOs : Lock(x, "W", "range", 0, 1, TRUE, s, lo, NoSid, nextId.other)
 
-\* Slots: COMPOUNDs consist of PUTROOTFH / OPEN / GETFH so that replies
-\* differ in shape, and the requests have effects that must not repeat.
+\* C20: two clients, lock operations over all ranges, CLOSE, lease expiry.
+CurSids(i) == {[k |-> "reg", o |-> r.o, q |-> r.q] : r \in StateRecs(i)}
+NextC20 ==
+  \/ Register \/ Time
+  \/ SeqNext({<<>>}, {1}, {TRUE})
+  \/ \E x \in Ctxs : CanStep(x) /\
+        \/ \E s \in CurSids(cx[x].i) : \E lo \in LOs : \E lt \in {"R", "W"} : \E r \in Ranges :
+              Lock(x, lt, "range", r[1], r[2], TRUE, s, lo, NoSid, nextId.other)
+        \/ \E s \in CurSids(cx[x].i) : \E lt \in {"R", "W"} : \E r \in Ranges :
+              Lock(x, lt, "range", r[1], r[2], FALSE, NoSid, "", s, nextId.other)
+        \/ \E lo \in LOs : \E lt \in {"R", "W"} : \E r \in Ranges : LockTest(x, lt, "range", r[1], r[2], lo)
+        \/ \E s \in CurSids(cx[x].i) : \E r \in Ranges : LockU(x, s, "range", r[1], r[2])
+        \/ \E s \in CurSids(cx[x].i) : FreeStateID(x, s)
+        \/ \E oo \in OOs : Open(x, oo, 3, 0, "NOCREATE", "FH", "", nextId.other)
+        \/ \E s \in CurSids(cx[x].i) : Close(x, s)
+
+\* C19: one session; COMPOUNDs consist of PUTROOTFH / OPEN / GETFH so that
+\* replies differ in shape and requests have effects that must not repeat;
+\* retransmissions, false retries, misordered requests, duplicates in flight.
 NextC19 ==
-  \/ ClientNext
-  \/ SeqNext({<<"PUTROOTFH">>, <<"PUTROOTFH", "OPEN">>, <<"PUTROOTFH", "GETFH">>})
+  \/ Register
+  \/ SeqNext({<<"PUTROOTFH">>, <<"PUTROOTFH", "OPEN">>, <<"PUTROOTFH", "GETFH">>}, {0, 1, 2}, BOOLEAN)
   \/ \E x \in Ctxs : CanStep(x) /\ Len(cx[x].acc) <= Len(cx[x].shape) /\
         LET nxt == cx[x].shape[Len(cx[x].acc)] IN
           \/ nxt = "PUTROOTFH" /\ PutRootFH(x)
           \/ nxt = "GETFH" /\ GetFH(x)
           \/ nxt = "OPEN" /\ \E n \in Names : Open(x, "o1", 1, 0, "NOCREATE", "NULL", n, nextId.other)
 
-Next == CASE Family = "C18" -> NextC18 [] Family = "C19" -> NextC19 [] OTHER -> NextC20
+Next == CASE Family = "C18a" -> NextC18a [] Family = "C18b" -> NextC18b
+          [] Family = "C19" -> NextC19 [] OTHER -> NextC20
 
 Init == InitState(SubSeq(SeqOfSet(Names), 1, IF Cardinality(Names) < MaxFile THEN Cardinality(Names) ELSE MaxFile))
 Spec == Init /\ [][Next]_vars
@@ -972,8 +1006,17 @@ Bound ==
   /\ nextId.other <= MaxOther + 1
   /\ nextId.cid <= Cardinality(IncKeys) + 2
   /\ \A r \in oofs \cup lofs : r.q <= MaxSeq
-  /\ \A s \in SessIds : \A t \in Slots : sess[s].slots[t].q <= MaxSeq
+  /\ \A f \in Files : pend[f]["R"] + pend[f]["W"] <= 1
+  /\ Family = "C19" => \A s \in SessIds : \A t \in Slots : sess[s].slots[t].q <= MaxSeq
 
 \* The reply and bookkeeping that cannot influence the future are hidden.
-MCView == <<clock, pnow, inc, sess, oofs, lofs, held, ios, leaf, pend, dir, fst, nfiles, cx, nextId, twice>>
+SessView == [s \in SessIds |-> [live |-> sess[s].live, i |-> sess[s].i,
+                                 slots |-> [t \in Slots |-> sess[s].slots[t].busy]]]
+\* (slot sequence numbers, accumulated replies and the current state ID do
+\* not influence the future in the families that use this view)
+CxView == [x \in Ctxs |-> [kind |-> cx[x].kind, i |-> cx[x].i, sid |-> cx[x].sid, slot |-> cx[x].slot, fh |-> cx[x].fh,
+                           failed |-> cx[x].failed, n |-> Len(cx[x].acc)]]
+MCView == IF Family = "C19"
+          THEN <<clock, pnow, inc, sess, oofs, lofs, held, ios, leaf, pend, dir, fst, nfiles, cx, nextId, twice>>
+          ELSE <<clock, pnow, inc, SessView, oofs, lofs, held, ios, leaf, pend, dir, fst, nfiles, CxView, nextId, twice>>
 =============================================================================
